@@ -1,47 +1,659 @@
+/-
+  Exact, executable, total model of the number handling of Go's `strconv`, `fmt` and `encoding/json`
+  that go-lucene relies on (validated against go1.23.5, linux/amd64):
+
+    * `F64`            IEEE-754 binary64 by bit pattern, comparison, `float64(int64)`, `int64(float64)`
+    * `atoi`           strconv.Atoi
+    * `parseFloat`     strconv.ParseFloat(s, 64)
+    * `fmtInt`         strconv.Itoa / `%d` / `%v` of an int
+    * `fmtG`           `%v` / `%#v` of a float64   (strconv.FormatFloat(f, 'g', -1, 64))
+    * `fmtFixed`       `%.<prec>f` of a float64
+    * `fmtJSON`        encoding/json float64 encoding
+    * `quoteGo`        strconv.Quote (printability is a parameter)
+
+  Core Lean only; all arithmetic is exact `Nat`/`Int` arithmetic; every function is structurally recursive
+  (loops that are not structural on a list carry explicit fuel).  Helper definitions live in
+  `GoLucene.Num`, the public API lives in `GoLucene`.
+
+  Faithfulness notes (things where "what Go does" is not "what the mathematics says"):
+
+    * ParseFloat reads the decimal/binary exponent with `if e < 10000 { e = e*10 + digit }`, so exponents
+      with more than five significant digits are clamped (`scanExpDigits`).  Only observable with mantissas of
+      ~90000+ digits.
+    * ParseFloat underflow is *not* an error (`1e-400` is `+0, nil`), overflow is (`1e400` is `+Inf, ErrRange` → `none`).
+    * With more than 800 significant digits *before the decimal point* strconv's multiprecision fallback misplaces the
+      decimal point (go1.23.5; see `decimalBits`).  The fallback is only reached when Eisel–Lemire gives up, so
+      `eiselLemire` is modelled too.  For all other inputs ParseFloat is correctly rounded and the model is the
+      two-line mathematical definition `roundRatBits`.
+    * `%v` of a float64 (shortest `%g`) uses exponent form iff the decimal exponent is `< -4` or `≥ 6`
+      (two-digit exponent at least: "1e+06", "1e-05"); encoding/json uses exponent form iff `|f| < 1e-6` or
+      `|f| ≥ 1e21` (float comparison) and prints "1e-7", "1e+21".
+
+  Validated by differential testing against real Go (see /verif/harness/cmd/numcheck).
+-/
 import GoLucene.Model.Basic
-/- TEMPORARY STUB — replaced by the exact model (see harness/cmd/numcheck). -/
+
 namespace GoLucene
 
+/-- IEEE-754 binary64 by its bit pattern. -/
 structure F64 where
   bits : UInt64
   deriving DecidableEq, Repr
 
-def F64.isNaN (_f : F64) : Bool := false
-def F64.isInf (_f : F64) : Bool := false
-def F64.isNeg (f : F64) : Bool := f.bits >>> 63 == 1
-def F64.lt (a b : F64) : Bool := a.bits < b.bits
-def F64.eq (a b : F64) : Bool := a.bits == b.bits
-def F64.one : F64 := ⟨0x3FF0000000000000⟩
-def F64.zero : F64 := ⟨0⟩
-def F64.ofInt (i : Int) : F64 := if i == 1 then F64.one else ⟨0x4000000000000000⟩
-def F64.toInt (_f : F64) : Int := 0
+namespace Num
 
-def digitsToNat : Bytes → Option Nat
-  | [] => some 0
-  | c :: cs => if 48 ≤ c ∧ c ≤ 57 then (digitsToNat cs) else none
+/-! ### constants -/
 
-def natOfDigits (ds : Bytes) : Nat := ds.foldl (fun acc c => acc * 10 + (c.toNat - 48)) 0
+def two52 : Nat := 4503599627370496          -- 2^52
+def two63 : Nat := 9223372036854775808       -- 2^63
+def two64 : Nat := 18446744073709551616      -- 2^64
+def infBits : Nat := 0x7FF0000000000000      -- bits of +Inf (= magnitude bound for finite values)
+def nanBits : Nat := 0x7FF8000000000001      -- bits of Go's math.NaN()
 
-def allDigits (ds : Bytes) : Bool := ds.all (fun c => 48 ≤ c && c ≤ 57)
+/-! ### rounding a positive rational to binary64 -/
 
+/--
+Magnitude bits (sign bit clear) of the binary64 nearest to `num/den` (ties to even).
+The result is `≥ infBits` exactly when the rounded value overflows.  `0` if `num = 0` (or `den = 0`).
+
+With `L = ⌊log2(num/den)⌋` and `e = max (L-52) (-1074)`, `q = round(num / (den·2^e))` has at most 53 bits
+(54 after a carry) and the bit pattern is `(e+1074)·2^52 + q` — this formula covers denormals
+(`e = -1074`, `q < 2^52`), normals (the implicit bit of `q` bumps the exponent field) and the
+carry into the next binade.
+-/
+def roundRatBits (num den : Nat) : Nat :=
+  if num = 0 ∨ den = 0 then 0 else
+  let d : Int := (Nat.log2 num : Int) - (Nat.log2 den : Int)
+  let ge : Bool :=
+    if d ≥ 0 then decide (den <<< d.toNat ≤ num) else decide (den ≤ num <<< (-d).toNat)
+  let L : Int := if ge then d else d - 1
+  let e : Int := if L - 52 < -1074 then -1074 else L - 52
+  let n' : Nat := if e ≥ 0 then num else num <<< (-e).toNat
+  let d' : Nat := if e ≥ 0 then den <<< e.toNat else den
+  let q := n' / d'
+  let r := n' % d'
+  let q' := if d' < 2 * r ∨ (2 * r = d' ∧ q % 2 = 1) then q + 1 else q
+  (e + 1074).toNat * two52 + q'
+
+end Num
+
+namespace F64
+open Num
+
+def ofBitsNat (n : Nat) : F64 := ⟨UInt64.ofNat n⟩
+
+/-- bit pattern with the sign bit cleared -/
+def mag (f : F64) : Nat := f.bits.toNat % two63
+
+def isNeg (f : F64) : Bool := decide (two63 ≤ f.bits.toNat)
+def isNaN (f : F64) : Bool := decide (infBits < f.mag)
+def isInf (f : F64) : Bool := f.mag == infBits
+def isZero (f : F64) : Bool := f.mag == 0
+def isFinite (f : F64) : Bool := decide (f.mag < infBits)
+
+/-- integer significand of a finite value: `|f| = mant · 2^exp2` -/
+def mant (f : F64) : Nat := if f.mag < two52 then f.mag else f.mag % two52 + two52
+/-- binary exponent of a finite value: `|f| = mant · 2^exp2` -/
+def exp2 (f : F64) : Int := if f.mag < two52 then -1074 else ((f.mag / two52 : Nat) : Int) - 1075
+
+/-- order-preserving integer key of a non-NaN value (-0 and +0 both map to 0) -/
+def key (f : F64) : Int := if f.isNeg then -(f.mag : Int) else (f.mag : Int)
+
+/-- IEEE `<` -/
+def lt (a b : F64) : Bool := !a.isNaN && !b.isNaN && decide (a.key < b.key)
+/-- IEEE `==` -/
+def eq (a b : F64) : Bool := !a.isNaN && !b.isNaN && decide (a.key = b.key)
+
+def zero : F64 := ⟨0⟩
+def one : F64 := ⟨0x3FF0000000000000⟩
+def negZero : F64 := ⟨0x8000000000000000⟩
+def inf (neg : Bool) : F64 := if neg then ⟨0xFFF0000000000000⟩ else ⟨0x7FF0000000000000⟩
+def nan : F64 := ⟨0x7FF8000000000001⟩
+
+/-- attach a sign to magnitude bits -/
+def ofMag (neg : Bool) (m : Nat) : F64 := ofBitsNat (if neg then m + two63 else m)
+
+/-- Go `float64(i)` for an int64 `i` (round to nearest, ties to even). -/
+def ofInt (i : Int) : F64 := ofMag (decide (i < 0)) (roundRatBits i.natAbs 1)
+
+/-- Go `int(f)` on amd64 (CVTTSD2SQ): truncation toward zero when the truncated value fits in int64,
+    otherwise (NaN, ±Inf, out of range) the "integer indefinite" value -2^63. -/
+def toInt (f : F64) : Int :=
+  let indefinite : Int := -(two63 : Int)
+  if !f.isFinite then indefinite else
+  let e := f.exp2
+  if e ≥ 12 then (if f.mant = 0 then 0 else indefinite) else
+  let v : Nat := if e ≥ 0 then f.mant <<< e.toNat else f.mant >>> (-e).toNat
+  let iv : Int := if f.isNeg then -(v : Int) else (v : Int)
+  if indefinite ≤ iv ∧ iv < (two63 : Int) then iv else indefinite
+
+end F64
+
+namespace Num
+
+/-! ### bytes helpers -/
+
+def isDig (c : UInt8) : Bool := 48 ≤ c && c ≤ 57
+/-- Go's `lower(c) = c | ('x' ^ 'X')` -/
+def lower (c : UInt8) : UInt8 := c ||| 0x20
+def isHexLet (c : UInt8) : Bool := 97 ≤ lower c && lower c ≤ 102
+/-- ASCII `A-Z → a-z` (used by `special`) -/
+def lowerAZ (c : UInt8) : UInt8 := if 65 ≤ c && c ≤ 90 then c + 32 else c
+
+/-- decimal digits of a natural number as ASCII bytes -/
+def natDigits (n : Nat) : Bytes := (Nat.toDigits 10 n).map (fun c => UInt8.ofNat c.toNat)
+
+def zeros (n : Nat) : Bytes := List.replicate n 48
+
+/-! ### strconv.Atoi -/
+
+/-- value of a non-empty all-digit string -/
+def digitsVal : Nat → Bytes → Option Nat
+  | acc, [] => some acc
+  | acc, c :: rest => if isDig c then digitsVal (acc * 10 + (c.toNat - 48)) rest else none
+
+def atoiU (s : Bytes) : Option Nat :=
+  match s with
+  | [] => none
+  | _ => digitsVal 0 s
+
+end Num
+
+open Num in
+/-- strconv.Atoi (== ParseInt(s,10,0) on a 64-bit platform): `none` for every error. -/
 def atoi (s : Bytes) : Option Int :=
-  let (neg, ds) := match s with
-    | 43 :: r => (false, r)
-    | 45 :: r => (true, r)
-    | r => (false, r)
-  if ds.isEmpty || !allDigits ds then none
+  match s with
+  | [] => none
+  | c :: rest =>
+    if c = 45 then
+      match atoiU rest with
+      | some n => if n ≤ two63 then some (-(n : Int)) else none
+      | none => none
+    else
+      match atoiU (if c = 43 then rest else s) with
+      | some n => if n < two63 then some (n : Int) else none
+      | none => none
+
+namespace Num
+
+/-! ### strconv.ParseFloat: scanner (mirrors `readFloat`) -/
+
+/-- state of the mantissa loop of `readFloat`; `mant`/`nd` hold *all* significant digits (Go keeps only
+    19 resp. 16 of them plus a `trunc` flag, which is derived from these when needed). -/
+structure Scan where
+  mant : Nat := 0
+  nd : Nat := 0
+  dp : Int := 0
+  /-- value of `nd` when the '.' was read -/
+  ndDot : Nat := 0
+  sawdot : Bool := false
+  sawdigits : Bool := false
+  us : Bool := false
+
+/-- the `loop:` of `readFloat`; returns the state and the unconsumed rest -/
+def scanMant (hex : Bool) : Scan → Bytes → Scan × Bytes
+  | st, [] => (st, [])
+  | st, c :: rest =>
+    if c = 95 then scanMant hex { st with us := true } rest
+    else if c = 46 then
+      if st.sawdot then (st, c :: rest)
+      else scanMant hex { st with sawdot := true, dp := (st.nd : Int), ndDot := st.nd } rest
+    else if isDig c then
+      if c = 48 ∧ st.nd = 0 then
+        scanMant hex { st with sawdigits := true, dp := st.dp - 1 } rest
+      else
+        scanMant hex { st with sawdigits := true, nd := st.nd + 1,
+                               mant := st.mant * (if hex then 16 else 10) + (c.toNat - 48) } rest
+    else if hex ∧ isHexLet c then
+      scanMant hex { st with sawdigits := true, nd := st.nd + 1,
+                             mant := st.mant * 16 + ((lower c).toNat - 87) } rest
+    else (st, c :: rest)
+
+/-- exponent digit loop: `if e < 10000 { e = e*10 + digit }`, underscores skipped (and recorded) -/
+def scanExpDigits : Nat → Bool → Bytes → Nat × Bool × Bytes
+  | e, us, [] => (e, us, [])
+  | e, us, c :: rest =>
+    if c = 95 then scanExpDigits e true rest
+    else if isDig c then scanExpDigits (if e < 10000 then e * 10 + (c.toNat - 48) else e) us rest
+    else (e, us, c :: rest)
+
+/-- The part of `readFloat` after the mantissa, combined with ParseFloat's "whole string consumed" check.
+    `none` = syntax error; `some (e, us)` = signed exponent to add to `dp` and the underscore flag. -/
+def scanExp (hex : Bool) (us : Bool) (rest : Bytes) : Option (Int × Bool) :=
+  match rest with
+  | [] => if hex then none else some (0, us)
+  | c :: r1 =>
+    if lower c = (if hex then 112 else 101) then
+      match r1 with
+      | [] => none
+      | s :: r2 =>
+        let neg := s = 45
+        let r3 := if s = 43 ∨ s = 45 then r2 else r1
+        match r3 with
+        | [] => none
+        | d :: _ =>
+          if isDig d then
+            match scanExpDigits 0 us r3 with
+            | (e, us', []) => some (if neg then -(e : Int) else (e : Int), us')
+            | _ => none
+          else none
+    else none
+
+inductive Saw where
+  | start | digit | under | other
+  deriving DecidableEq
+
+def underscoreLoop (hex : Bool) : Saw → Bytes → Bool
+  | saw, [] => saw != Saw.under
+  | saw, c :: rest =>
+    if isDig c || (hex && isHexLet c) then underscoreLoop hex Saw.digit rest
+    else if c = 95 then
+      if saw != Saw.digit then false else underscoreLoop hex Saw.under rest
+    else if saw == Saw.under then false
+    else underscoreLoop hex Saw.other rest
+
+/-- strconv's `underscoreOK` -/
+def underscoreOK (s : Bytes) : Bool :=
+  let s1 := match s with
+    | c :: rest => if c = 45 ∨ c = 43 then rest else s
+    | [] => s
+  match s1 with
+  | 48 :: x :: rest =>
+    if lower x = 98 ∨ lower x = 111 ∨ lower x = 120 then
+      underscoreLoop (lower x = 120) Saw.digit rest
+    else underscoreLoop false Saw.start s1
+  | _ => underscoreLoop false Saw.start s1
+
+/-- ParseFloat's `special` restricted to whole-string matches:
+    `[+-]?(inf|infinity)` and `nan`, ASCII-case-insensitively. -/
+def special (s : Bytes) : Option F64 :=
+  let isInfWord (w : Bytes) : Bool :=
+    let l := w.map lowerAZ
+    l == [105, 110, 102] || l == [105, 110, 102, 105, 110, 105, 116, 121]
+  match s with
+  | [] => none
+  | c :: rest =>
+    if c = 43 then (if isInfWord rest then some (F64.inf false) else none)
+    else if c = 45 then (if isInfWord rest then some (F64.inf true) else none)
+    else if isInfWord s then some (F64.inf false)
+    else if s.map lowerAZ == [110, 97, 110] then some F64.nan
+    else none
+
+/-! ### decimal → binary64 -/
+
+/-- magnitude bits of the correctly rounded value of `0.d₁d₂…d_nd × 10^dp` where `mant = d₁…d_nd ≠ 0`
+    (so the value is `mant × 10^(dp-nd)`, and lies in `[10^(dp-1), 10^dp)` when `d₁ ≠ 0`).
+    Huge exponents are cut off before exponentiating, exactly as in `decimal.floatBits`. -/
+def decBits (mant nd : Nat) (dp : Int) : Nat :=
+  if dp > 310 then infBits
+  else if dp < -330 then 0
   else
-    let n := natOfDigits ds
-    if neg then (if n ≤ 9223372036854775808 then some (-(n : Int)) else none)
-    else (if n ≤ 9223372036854775807 then some (n : Int) else none)
+    let x : Int := dp - (nd : Int)
+    if x ≥ 0 then roundRatBits (mant * 10 ^ x.toNat) 1
+    else roundRatBits mant (10 ^ (-x).toNat)
 
-def parseFloat (_s : Bytes) : Option F64 := none
+/-- magnitude bits for the hexadecimal value `mant × 2^x`, `mant ≠ 0` -/
+def hexBits (mant : Nat) (x : Int) : Nat :=
+  let L : Int := (Nat.log2 mant : Int) + x
+  if L > 1030 then infBits
+  else if L < -1080 then 0
+  else if x ≥ 0 then roundRatBits (mant <<< x.toNat) 1
+  else roundRatBits mant (1 <<< (-x).toNat)
 
-def fmtNat (n : Nat) : Bytes := (toString n).toUTF8.toList
-def fmtInt (i : Int) : Bytes := if i < 0 then 45 :: fmtNat i.natAbs else fmtNat i.natAbs
-def fmtG (_f : F64) : Bytes := b "1"
-def fmtFixed (_f : F64) (_prec : Nat) : Bytes := b "1.0"
-def fmtJSON (_f : F64) : Option Bytes := some (b "1")
-def quoteGo (_isPrint : Nat → Bool) (s : Bytes) : Bytes := [34] ++ s ++ [34]
+/-! ### Eisel–Lemire (only its *success condition* matters, see `parseFloat`) -/
+
+/-- `detailedPowersOfTen[q+348]` as one 128-bit number: the 128-bit mantissa of `10^q`, rounded down -/
+def elPow (q : Int) : Nat :=
+  if q ≥ 0 then
+    let p := 10 ^ q.toNat
+    let bl := Nat.log2 p + 1
+    if bl ≥ 128 then p >>> (bl - 128) else p <<< (128 - bl)
+  else
+    let p := 10 ^ (-q).toNat
+    (1 <<< (127 + (Nat.log2 p + 1))) / p
+
+/-- strconv's `eiselLemire64` for `man ≠ 0`, `man < 2^64`; returns the magnitude bits or `none` (`ok = false`) -/
+def eiselLemire (man : Nat) (exp10 : Int) : Option Nat :=
+  if man = 0 then some 0
+  else if exp10 < -348 ∨ 347 < exp10 then none
+  else
+    let clz := 63 - Nat.log2 man
+    let man := man <<< clz
+    let retExp2 : Int := Int.fdiv (217706 * exp10) 65536 + 64 + 1023 - (clz : Int)
+    let pow := elPow exp10
+    let powHi := pow / two64
+    let powLo := pow % two64
+    let x := man * powHi
+    let xHi := x / two64
+    let xLo := x % two64
+    let wide : Option (Nat × Nat) :=
+      if xHi % 512 = 511 ∧ xLo + man ≥ two64 then
+        let y := man * powLo
+        let yHi := y / two64
+        let yLo := y % two64
+        let mergedLo := (xLo + yHi) % two64
+        let mergedHi := if mergedLo < xLo then xHi + 1 else xHi
+        if mergedHi % 512 = 511 ∧ mergedLo = two64 - 1 ∧ yLo + man ≥ two64 then none
+        else some (mergedHi, mergedLo)
+      else some (xHi, xLo)
+    match wide with
+    | none => none
+    | some (xHi, xLo) =>
+      let msb := xHi / two63
+      let retMantissa := xHi >>> (msb + 9)
+      let retExp2 := retExp2 - (if msb = 1 then 0 else 1)
+      if xLo = 0 ∧ xHi % 512 = 0 ∧ retMantissa % 4 = 1 then none
+      else
+        let rm := (retMantissa + retMantissa % 2) / 2
+        let carry := rm / (2 * two52) > 0
+        let rm := if carry then rm / 2 else rm
+        let retExp2 := if carry then retExp2 + 1 else retExp2
+        if retExp2 ≤ 0 ∨ retExp2 ≥ 0x7FF then none
+        else some (retExp2.toNat * two52 + rm % two52)
+
+/-- number of significant digits `decimal.d` can hold -/
+def decimalCap : Nat := 800
+
+/--
+Decimal conversion as Go really performs it.
+
+For every input whose number of significant *integer* digits (digits before the '.', or all digits when there is
+no '.', counted from the first non-zero digit) is at most 800, all of Go's paths (exact float arithmetic,
+Eisel–Lemire, multiprecision `decimal`) yield the correctly rounded value, which is what `decBits` computes.
+
+With more than 800 significant integer digits the multiprecision fallback misplaces the decimal point
+(`decimal.set` executes `b.dp = b.nd` with `b.nd` capped at 800), so the value it converts is too small by a factor
+`10^(ndInt-800)`.  The fallback is reached exactly when Eisel–Lemire gives up (the exact path is impossible:
+the 19-digit mantissa exceeds 2^53), hence we evaluate Eisel–Lemire's success condition in that case.
+-/
+def decimalBits (mant nd ndInt : Nat) (dp : Int) : Nat :=
+  if ndInt ≤ decimalCap then decBits mant nd dp
+  else
+    -- here nd ≥ ndInt > 800 > 19
+    let cut := 10 ^ (nd - 19)
+    let m19 := mant / cut
+    let trunc := mant % cut != 0
+    let e10 : Int := dp - 19
+    let fast : Option Nat :=
+      match eiselLemire m19 e10 with
+      | none => none
+      | some f =>
+        if !trunc then some f
+        else match eiselLemire (m19 + 1) e10 with
+          | none => none
+          | some fUp => if f = fUp then some f else none
+    match fast with
+    | some f => f
+    | none =>
+      let cut800 := 10 ^ (nd - decimalCap)
+      let d800 := mant / cut800
+      let sticky := if mant % cut800 != 0 then 1 else 0
+      let dpSlow : Int := dp - ((ndInt - decimalCap : Nat) : Int)
+      -- 801 digits: the 800 kept ones and a sticky digit standing for "a little more"
+      decBits (d800 * 10 + sticky) (decimalCap + 1) dpSlow
+
+end Num
+
+open Num in
+/-- strconv.ParseFloat(s, 64): `none` whenever Go returns err != nil (syntax error or range error). -/
+def parseFloat (s : Bytes) : Option F64 :=
+  match special s with
+  | some f => some f
+  | none =>
+    let neg : Bool := match s with
+      | c :: _ => c = 45
+      | [] => false
+    let s1 : Bytes := match s with
+      | c :: rest => if c = 43 ∨ c = 45 then rest else s
+      | [] => s
+    -- `i+2 < len(s) && s[i] == '0' && lower(s[i+1]) == 'x'`
+    let hexRest : Option Bytes := match s1 with
+      | 48 :: x :: y :: r => if lower x = 120 then some (y :: r) else none
+      | _ => none
+    let hex := hexRest.isSome
+    let body := match hexRest with
+      | some r => r
+      | none => s1
+    match scanMant hex {} body with
+    | (st, rest) =>
+      if !st.sawdigits then none else
+      let dp0 : Int := if st.sawdot then st.dp else (st.nd : Int)
+      let dp1 : Int := if hex then dp0 * 4 else dp0
+      match scanExp hex st.us rest with
+      | none => none
+      | some (e, us) =>
+        if us && !underscoreOK s then none else
+        let dp := dp1 + e
+        if st.mant = 0 then some (F64.ofMag neg 0) else
+        let bits :=
+          if hex then hexBits st.mant (dp - 4 * (st.nd : Int))
+          else decimalBits st.mant st.nd (if st.sawdot then st.ndDot else st.nd) dp
+        if bits ≥ infBits then none else some (F64.ofMag neg bits)
+
+open Num in
+/-- decimal text of an int64, as `strconv.Itoa` / fmt `%d` / `%v` print it. -/
+def fmtInt (i : Int) : Bytes :=
+  if i < 0 then 45 :: natDigits i.natAbs else natDigits i.natAbs
+
+namespace Num
+
+/-! ### shortest decimal that round-trips (what `ryuFtoaShortest` / `roundShortest` compute) -/
+
+/--
+Search for the coarsest scale `10^k` at which a multiple of `10^k` lies in the rounding interval.
+All quantities are numerators over the common denominator `den`:
+`lo ≤ x ≤ hi` (interval `[lo,hi]` if `incl`, `(lo,hi)` otherwise).  Returns `(c, k)` with result `c × 10^k`:
+the multiple nearest to `x` among those inside the interval, a tie going to the even `c`.
+-/
+def shortestLoop (lo x hi den : Nat) (incl : Bool) : Nat → Int → Nat × Int
+  | 0, k => (0, k)
+  | fuel + 1, k =>
+    let mul := if k < 0 then 10 ^ (-k).toNat else 1
+    let dv := if k ≥ 0 then den * 10 ^ k.toNat else den
+    let x' := x * mul
+    let c := x' / dv
+    let r := x' % dv
+    if r = 0 then (c, k) else
+    let lowOK := c > 0 ∧ (if incl then lo * mul ≤ c * dv else lo * mul < c * dv)
+    let highOK := if incl then (c + 1) * dv ≤ hi * mul else (c + 1) * dv < hi * mul
+    if lowOK ∧ highOK then
+      if 2 * r < dv then (c, k)
+      else if dv < 2 * r then (c + 1, k)
+      else if c % 2 = 0 then (c, k) else (c + 1, k)
+    else if lowOK then (c, k)
+    else if highOK then (c + 1, k)
+    else shortestLoop lo x hi den incl fuel (k - 1)
+
+def stripZeros : Nat → Nat → Int → Nat × Int
+  | 0, c, k => (c, k)
+  | fuel + 1, c, k => if c ≠ 0 ∧ c % 10 = 0 then stripZeros fuel (c / 10) (k + 1) else (c, k)
+
+/-- Shortest digits of the finite non-zero value `m · 2^e` (`m`, `e` as given by `F64.mant`/`F64.exp2`):
+    returns `(digits, dp)` meaning `0.digits × 10^dp`, digits without trailing zeros. -/
+def shortest (m : Nat) (e : Int) : Bytes × Int :=
+  -- lower neighbour is half as far away at the bottom of a binade (except for the smallest normal)
+  let boundary := m = two52 ∧ e ≠ -1074
+  let e2 := e - 2
+  let sc := if e2 ≥ 0 then 1 <<< e2.toNat else 1
+  let den := if e2 ≥ 0 then 1 else 1 <<< (-e2).toNat
+  let x := 4 * m * sc
+  let lo := (if boundary then 4 * m - 1 else 4 * m - 2) * sc
+  let hi := (4 * m + 2) * sc
+  -- 10^kstart > hi, so nothing can be found above kstart
+  let bl : Int := (Nat.log2 (4 * m + 2) : Int) + 1 + e2
+  let kstart : Int := bl * 30103 / 100000 + 1
+  let (c, k) := shortestLoop lo x hi den (m % 2 = 0) 64 kstart
+  let (c, k) := stripZeros 400 c k
+  let ds := natDigits c
+  (ds, (ds.length : Int) + k)
+
+/-- exponent suffix of `%e`: sign and at least two digits -/
+def fmtExp (exp : Int) : Bytes :=
+  let a := exp.natAbs
+  (if exp < 0 then 45 else 43) :: (if a < 10 then 48 :: natDigits a else natDigits a)
+
+/-- strconv's `%e` with the shortest precision (`prec = nd-1`) -/
+def fmtEShortest (ds : Bytes) (dp : Int) : Bytes :=
+  match ds with
+  | [] => [48, 101, 43, 48, 48]
+  | d :: more =>
+    (d :: (if more.isEmpty then [] else 46 :: more)) ++ 101 :: fmtExp (dp - 1)
+
+/-- strconv's `%f` with the shortest precision (`prec = max(nd-dp, 0)`) -/
+def fmtFShortest (ds : Bytes) (dp : Int) : Bytes :=
+  let nd := ds.length
+  if dp ≤ 0 then
+    if nd = 0 then [48] else 48 :: 46 :: (zeros (-dp).toNat ++ ds)
+  else
+    let p := dp.toNat
+    if nd ≤ p then ds ++ zeros (p - nd)
+    else ds.take p ++ 46 :: ds.drop p
+
+def signed (neg : Bool) (body : Bytes) : Bytes := if neg then 45 :: body else body
+
+/-- digits and decimal point of a finite value (zero: no digits, dp = 0) -/
+def shortestOf (f : F64) : Bytes × Int :=
+  if f.isZero then ([], 0) else shortest f.mant f.exp2
+
+def nonFinite (f : F64) : Bytes :=
+  if f.isNaN then [78, 97, 78]                 -- "NaN"
+  else if f.isNeg then [45, 73, 110, 102]      -- "-Inf"
+  else [43, 73, 110, 102]                      -- "+Inf"
+
+/-- `float64` constants used by encoding/json: 1e-6 and 1e21 -/
+def f1em6 : F64 := ⟨0x3EB0C6F7A0B5ED8D⟩
+def f1e21 : F64 := ⟨0x444B1AE4D6E2EF50⟩
+
+/-- encoding/json: "clean up e-09 to e-9" -/
+def jsonCleanExp (bs : Bytes) : Bytes :=
+  match bs.reverse with
+  | d :: 48 :: 45 :: 101 :: more => (d :: 45 :: 101 :: more).reverse
+  | _ => bs
+
+end Num
+
+open Num in
+/-- fmt `%v` (and `%#v`) of a float64 == strconv.FormatFloat(f, 'g', -1, 64): shortest round-tripping digits
+    (closest to the exact value among the shortest, ties to even).  With the shortest precision strconv decides with
+    `eprec = 6`: `%e` form iff the decimal exponent `exp = dp-1` satisfies `exp < -4 || exp >= 6`
+    ("100000", "1e+06", "0.0001", "1e-05").  NaN → "NaN", ±Inf → "+Inf"/"-Inf", -0 → "-0". -/
+def fmtG (f : F64) : Bytes :=
+  if !f.isFinite then nonFinite f else
+  let (ds, dp) := shortestOf f
+  let exp := dp - 1
+  signed f.isNeg (if exp < -4 ∨ exp ≥ 6 then fmtEShortest ds dp else fmtFShortest ds dp)
+
+open Num in
+/-- fmt `%.<prec>f` of a float64: exact decimal expansion rounded half-even to `prec` fractional digits. -/
+def fmtFixed (f : F64) (prec : Nat) : Bytes :=
+  if !f.isFinite then nonFinite f else
+  let m := f.mant
+  let e := f.exp2
+  let p10 := 10 ^ prec
+  let n : Nat :=
+    if e ≥ 0 then (m <<< e.toNat) * p10
+    else
+      let num := m * p10
+      let den := 1 <<< (-e).toNat
+      let q := num / den
+      let r := num % den
+      if den < 2 * r ∨ (2 * r = den ∧ q % 2 = 1) then q + 1 else q
+  let ip := natDigits (n / p10)
+  let fp := natDigits (n % p10)
+  signed f.isNeg (if prec = 0 then ip else ip ++ 46 :: (zeros (prec - fp.length) ++ fp))
+
+open Num in
+/-- encoding/json's float64 encoding: `none` for NaN/±Inf. -/
+def fmtJSON (f : F64) : Option Bytes :=
+  if !f.isFinite then none else
+  let (ds, dp) := shortestOf f
+  let a : F64 := ⟨UInt64.ofNat f.mag⟩
+  let useE := !f.isZero && (F64.lt a f1em6 || !F64.lt a f1e21)
+  some (signed f.isNeg (if useE then jsonCleanExp (fmtEShortest ds dp) else fmtFShortest ds dp))
+
+namespace Num
+
+/-! ### strconv.Quote -/
+
+def hexdig (n : Nat) : UInt8 := UInt8.ofNat (if n < 10 then 48 + n else 87 + n)
+
+def isCont (c : UInt8) : Bool := 0x80 ≤ c && c ≤ 0xBF
+
+/-- utf8.DecodeRune for a lead byte `≥ 0x80`: `some (rune, width)` for a well-formed sequence, `none` for (RuneError, 1) -/
+def decodeMulti (s : Bytes) : Option (Nat × Nat) :=
+  match s with
+  | [] => none
+  | b0 :: rest =>
+    let n0 := b0.toNat
+    if 0xC2 ≤ b0 && b0 ≤ 0xDF then
+      match rest with
+      | b1 :: _ => if isCont b1 then some ((n0 % 32) * 64 + b1.toNat % 64, 2) else none
+      | _ => none
+    else if 0xE0 ≤ b0 && b0 ≤ 0xEF then
+      match rest with
+      | b1 :: b2 :: _ =>
+        let lo : UInt8 := if b0 = 0xE0 then 0xA0 else 0x80
+        let hi : UInt8 := if b0 = 0xED then 0x9F else 0xBF
+        if lo ≤ b1 && b1 ≤ hi && isCont b2 then
+          some ((n0 % 16) * 4096 + (b1.toNat % 64) * 64 + b2.toNat % 64, 3)
+        else none
+      | _ => none
+    else if 0xF0 ≤ b0 && b0 ≤ 0xF4 then
+      match rest with
+      | b1 :: b2 :: b3 :: _ =>
+        let lo : UInt8 := if b0 = 0xF0 then 0x90 else 0x80
+        let hi : UInt8 := if b0 = 0xF4 then 0x8F else 0xBF
+        if lo ≤ b1 && b1 ≤ hi && isCont b2 && isCont b3 then
+          some ((n0 % 8) * 262144 + (b1.toNat % 64) * 4096 + (b2.toNat % 64) * 64 + b3.toNat % 64, 4)
+        else none
+      | _ => none
+    else none
+
+/-- utf8.AppendRune for a valid rune -/
+def encodeRune (r : Nat) : Bytes :=
+  if r < 0x80 then [UInt8.ofNat r]
+  else if r < 0x800 then [UInt8.ofNat (0xC0 + r / 64), UInt8.ofNat (0x80 + r % 64)]
+  else if r < 0x10000 then
+    [UInt8.ofNat (0xE0 + r / 4096), UInt8.ofNat (0x80 + r / 64 % 64), UInt8.ofNat (0x80 + r % 64)]
+  else
+    [UInt8.ofNat (0xF0 + r / 262144), UInt8.ofNat (0x80 + r / 4096 % 64),
+     UInt8.ofNat (0x80 + r / 64 % 64), UInt8.ofNat (0x80 + r % 64)]
+
+def hexN : Nat → Nat → Bytes
+  | 0, _ => []
+  | n + 1, r => hexN n (r / 16) ++ [hexdig (r % 16)]
+
+/-- strconv's `appendEscapedRune` with quote = '"', ASCIIonly = graphicOnly = false -/
+def escapedRune (isPrint : Nat → Bool) (r : Nat) : Bytes :=
+  if r = 34 ∨ r = 92 then [92, UInt8.ofNat r]
+  else if isPrint r then encodeRune r
+  else if r = 7 then [92, 97]     -- \a
+  else if r = 8 then [92, 98]     -- \b
+  else if r = 12 then [92, 102]     -- \f
+  else if r = 10 then [92, 110]     -- \n
+  else if r = 13 then [92, 114]     -- \r
+  else if r = 9 then [92, 116]     -- \t
+  else if r = 11 then [92, 118]     -- \v
+  else if r < 32 ∨ r = 0x7f then 92 :: 120 :: hexN 2 r
+  else if r < 0x10000 then 92 :: 117 :: hexN 4 r
+  else 92 :: 85 :: hexN 8 r
+
+/-- body of `appendQuotedWith`; `skip` = number of continuation bytes of the current rune still to be skipped -/
+def quoteLoop (isPrint : Nat → Bool) : Nat → Bytes → Bytes
+  | _, [] => []
+  | skip + 1, _ :: rest => quoteLoop isPrint skip rest
+  | 0, c :: rest =>
+    if c < 0x80 then escapedRune isPrint c.toNat ++ quoteLoop isPrint 0 rest
+    else
+      match decodeMulti (c :: rest) with
+      | some (r, w) => escapedRune isPrint r ++ quoteLoop isPrint (w - 1) rest
+      | none => (92 :: 120 :: hexN 2 c.toNat) ++ quoteLoop isPrint 0 rest
+
+end Num
+
+open Num in
+/-- strconv.Quote(s) (what `%#v` prints for a Go string); `isPrint` stands for strconv.IsPrint. -/
+def quoteGo (isPrint : Nat → Bool) (s : Bytes) : Bytes :=
+  34 :: (quoteLoop isPrint 0 s ++ [34])
 
 end GoLucene
